@@ -25,12 +25,12 @@ var c19Pool = []c19Param{
 }
 
 type c19Callable struct {
-	Name   string
-	Pipe   bool
-	Ins    []c19Param
-	Outs   []c19Param
-	Retain []string // stage: retained outputs
-	Body   string   // pipeline body text (calls, return, retain)
+	Name    string
+	Pipe    bool
+	Ins     []c19Param
+	Outs    []c19Param
+	Retain  []string // stage: retained outputs
+	Body    string   // pipeline body text (calls, return, retain)
 	CallIds []string
 	Callees []string
 }
